@@ -133,6 +133,17 @@ template <class T> static void run_type(Src &s, Case &c, const char *tname)
         VP_CHECK(eq(y, b), "archive_concat_second", "%s: second of two concatenated values decodes to %s, want %s",
                  tname, show(y).c_str(), show(b).c_str());
     }
+    // (ii-c) two encodings alive at the same time (serialize(a) + serialize(b), results bound to references): each keeps
+    // its own bytes
+    {
+        const auto &ra = igris::serialize(a);
+        const auto &rb = igris::serialize(b);
+        VP_CHECK(std::string(ra) == ea && std::string(rb) == eb, "archive_results_alias",
+                 "%s: with both results alive serialize(a) reads %s and serialize(b) reads %s (alone: %s / %s)", tname, hexs(std::string(ra)).c_str(),
+                 hexs(std::string(rb)).c_str(), hexs(ea).c_str(), hexs(eb).c_str());
+        std::string cat2 = igris::serialize(a) + igris::serialize(b);
+        VP_CHECK(cat2 == ea + eb, "archive_results_alias", "%s: serialize(a) + serialize(b) gives %s, want %s", tname, hexs(cat2).c_str(), hexs(ea + eb).c_str());
+    }
     // (iii) wire format == independent reference encoder
     VP_CHECK(ea == tv.ra, "archive_wire",
              "%s value %s: serialize gives %zu bytes %s, the documented layout is %zu bytes %s", tname,
